@@ -268,6 +268,7 @@ type decoded struct {
 	h, hc, hn, hnc string
 	boc            string // the bag the message cell was parsed from (replay input)
 	m              *tlb.Message
+	hr, hnr        string // the same through a decoder with a library resolver (messages that hold a library cell)
 	reused         bool   // decoded into variables that held another message before
 	prev           string // ... namely the one in this bag
 }
@@ -279,6 +280,28 @@ type slots struct {
 	plain, cached tlb.Message
 	used          int
 	last          string // the bag decoded into them last
+}
+
+// oneCell is ONE boc.Cell variable whose content changes from decode to decode (cell = *root; tlb.Unmarshal(&cell, &x)):
+// messages decoded into the long-lived variables and the transactions of records.go all pass through it, so consecutive
+// package-level tlb.Unmarshal calls see different records at the same cell address.
+var oneCell boc.Cell
+
+// libContent: what the library resolver of the harness answers for any library hash (an ordinary cell)
+func libContent() *boc.Cell {
+	c := boc.NewCell()
+	_ = c.WriteUint(0xC16C16C16, 36)
+	_ = c.AddRef(boc.NewCell())
+	return c
+}
+
+func hasLibraryCell(t []cells.C) bool {
+	for _, c := range t {
+		if c.X == int(boc.LibraryCell) {
+			return true
+		}
+	}
+	return false
 }
 
 // cloneMsg: a copy that shares no info record with m (Hash(true) writes into the destination address)
@@ -372,7 +395,12 @@ func decodeBag(bag []byte, c *boc.Cell, dec *tlb.Decoder, viaBoc bool, sl *slots
 		}
 	}
 	d.cells = table(c1) // the cell the message is about to be decoded from
-	if err := safely(func() error { return tlb.Unmarshal(c1, m1) }); err != nil {
+	src := c1
+	if sl != nil {
+		oneCell = *c1
+		src = &oneCell
+	}
+	if err := safely(func() error { return tlb.Unmarshal(src, m1) }); err != nil {
 		return nil, &decodeErr{"unmarshal", d.cells, d.boc, err}
 	}
 	d.m = cloneMsg(m1)
@@ -388,6 +416,19 @@ func decodeBag(bag []byte, c *boc.Cell, dec *tlb.Decoder, viaBoc bool, sl *slots
 		return nil, &decodeErr{"unmarshal-with-hasher", d.cells, d.boc, err}
 	}
 	d.hc, d.hnc = report(m2, sl != nil)
+	if hasLibraryCell(d.cells) {
+		// a decoder that can resolve libraries must still report the message that stands in the cell
+		c3, err := parse()
+		if err != nil {
+			return nil, err
+		}
+		rdec := tlb.NewDecoder().WithLibraryResolver(func(tlb.Bits256) (*boc.Cell, error) { return libContent(), nil })
+		var m3 tlb.Message
+		if err := safely(func() error { return rdec.Unmarshal(c3, &m3) }); err != nil {
+			return nil, &decodeErr{"unmarshal-with-library-resolver", d.cells, d.boc, err}
+		}
+		d.hr, d.hnr = msgReport(&m3)
+	}
 	return d, nil
 }
 
